@@ -11,7 +11,7 @@ ASSUMPTIONS_COMMON = [
     'no assume()/admit() in any generated file (scanned on every run)',
 ]
 
-CLAIMED = ['C01', 'C02', 'C05', 'C06', 'C07', 'C09', 'C12', 'C14', 'C15', 'C16', 'C18', 'C20']
+CLAIMED = ['C01', 'C02', 'C03', 'C05', 'C06', 'C07', 'C09', 'C12', 'C13', 'C14', 'C15', 'C16', 'C18', 'C20']
 
 INFO = {
  'C20': {
@@ -22,6 +22,10 @@ INFO = {
  },
 }
 INFO.update({
+ 'C03': {'claim': 'Counter encode/decode of the eventfd ping, for all 2^64 counter values, on the verbatim body of the closure PingSource::process_events passes to its Generic (S1 slice): the callback is callable only if the drained counter contains a ping (no callback without a ping), all pings accumulated in one counter value give one callback, the close marker gives Remove after the outstanding ping was delivered, otherwise Continue. PingSource registration delegates to the proven Generic.',
+         'not_covered': ['thread schedules, kernel eventfd atomicity and level-triggered readiness', 'each ping() is followed by a callback (liveness)', 'send_ping / Ping::ping / FlagOnDrop (rustix write)'], 'trusted': ['drain_ping returns the kernel counter (assumed, signature-only)']},
+ 'C13': {'claim': 'Slot semantics of idle callbacks: cancel() empties the slot; dispatch() never calls anything on an empty slot and leaves it empty.',
+         'not_covered': ['insert_idle FnOnce wrapper (closure mutating captured state)', 'dispatch_idles take-then-run, ordering, idle inserted by idle'], 'trusted': []},
  'C18': {'claim': 'Whole TransientSource state machine on the verbatim text (rewrites R1-R3, R6, R8): for every state x {process_events with any child result, remove, replace, map, register, reregister, unregister}, any child obeying the registration protocol and any parent whose register/unregister alternate, the state invariant (child registered exactly when it is the current kept child of a registered parent) is preserved, the child protocol preconditions hold at all 14 call sites, a child is dropped only when unregistered, events are forwarded only from the kept child, only Continue/Reregister are returned. Three obligations fail on the real code (known findings F6a/b/d).',
          'not_covered': ['Box<T>/&mut T blanket impls', 'failure of the NEW child registration inside Replace (documented hole)'], 'trusted': ['mem::take spec', 'EventSource protocol assumed for the child type parameter']},
  'C16': {'claim': 'Generic side: token/poller recorded only after successful registration, cleared by unregister, unchanged on Err; callback only for the registered token; cvt_interest/cvt_mode exact.',
